@@ -9,3 +9,7 @@ package geometry
 func verifTrace(fn, site string, ring Ring, seg Segment, allowOnEdge, result bool) {}
 
 func verifTraceLine(site string, line, other *Line, result bool) {}
+
+type verifSteps struct{}
+
+func (*verifSteps) step(n, m int) {}
